@@ -448,6 +448,12 @@ func (fv *FV) callStatic(st *State, callee *types.Func, recv *Term, recvExpr ast
 	if recv != nil && osig.Recv() != nil {
 		_, wantPtr := osig.Recv().Type().(*types.Pointer)
 		_, havePtr := recv.T.Underlying().(*types.Pointer)
+		if wantPtr && !havePtr && isOpaqueStruct(recv.T) {
+			r := *recv
+			r.T = types.NewPointer(recv.T)
+			recv = &r
+			havePtr = true
+		}
 		if wantPtr && !havePtr {
 			// x.M() with pointer receiver on an addressable local of non-struct type: box the variable in a fresh
 			// cell for the duration of the call and read it back afterwards (the callee does not retain the pointer)
